@@ -140,6 +140,79 @@ class _Wall:
         time.time, time.monotonic, time.perf_counter = self._saved
 
 
+class _SerialFuture:
+    def __init__(self, fn, args):
+        self.fn, self.args, self.done, self.res, self.exc = fn, args, False, None, None
+
+    def run(self):
+        if not self.done:
+            try:
+                self.res = self.fn(*self.args)
+            except BaseException as e:  # noqa: BLE001
+                self.exc = e
+            self.done = True
+
+    def result(self):
+        self.run()
+        if self.exc is not None:
+            raise self.exc
+        return self.res
+
+
+class _Pool:
+    """Harness-owned executor for ParallelSimulation: window tasks run one after the other, and `as_completed` yields them in
+    an order drawn from a generator seeded with the job's `pool_seed` — the wall-clock dependent completion order of worker
+    threads, made a seeded perturbation.  Installed for every job (only parallel models use it)."""
+
+    def __init__(self, seed: int):
+        self.rng = random.Random(seed)
+
+    def __enter__(self):
+        import happysimulator.parallel.coordinator as c
+        import happysimulator.parallel.simulation as s
+
+        self.mods = [m for m in (c, s)]
+        self.saved = [(m, getattr(m, "ThreadPoolExecutor", None), getattr(m, "as_completed", None)) for m in self.mods]
+        rng = self.rng
+
+        class SerialPool:
+            def __init__(self, max_workers=None, **kw):
+                pass
+
+            def __enter__(self):
+                return self
+
+            def __exit__(self, *a):
+                return False
+
+            def submit(self, fn, *args):
+                return _SerialFuture(fn, args)
+
+            def shutdown(self, *a, **kw):
+                pass
+
+        def as_completed(fs, timeout=None):
+            order = list(fs)
+            rng.shuffle(order)
+            for f in order:
+                f.run()
+                yield f
+
+        for m, tp, ac in self.saved:
+            if tp is not None:
+                m.ThreadPoolExecutor = SerialPool
+            if ac is not None:
+                m.as_completed = as_completed
+        return self
+
+    def __exit__(self, *a):
+        for m, tp, ac in self.saved:
+            if tp is not None:
+                m.ThreadPoolExecutor = tp
+            if ac is not None:
+                m.as_completed = ac
+
+
 class _UuidCount:
     """uuid4 stays real (os.urandom); only the number of calls is observed."""
 
@@ -206,7 +279,7 @@ def execute(job: dict, full: bool = False) -> dict:
                     type(t).__name__))
 
     counter_before = _peek_event_counter()
-    with _Wall(job.get("wall")) as wall, _UuidCount() as uu:
+    with _Wall(job.get("wall")) as wall, _UuidCount() as uu, _Pool(int(job.get("pool_seed", 0))):
         # ---- what the user does
         random.seed(seed)
         if job.get("numpy_seed", True):
@@ -221,6 +294,8 @@ def execute(job: dict, full: bool = False) -> dict:
             status, summary = "budget", None
         except Violation:
             raise
+        except (zoo.ZooCrash, zoo.ZooAbort) as exc:   # a model whose handler raises on purpose; the caller (we) catches it
+            status, summary = f"died:{type(exc).__name__}", None
         except Exception as exc:  # noqa: BLE001  (repo exception inside sim.run(): part of the behaviour, compared like a statistic)
             sig = repo_exception_sig(exc)
             if sig is None:
@@ -235,7 +310,10 @@ def execute(job: dict, full: bool = False) -> dict:
     stats["run.deliveries"] = str(mon.seq)
     if summary is not None:
         stats["summary.total_events_processed"] = str(summary.total_events_processed)
-        stats["summary.events_cancelled"] = str(summary.events_cancelled)
+        stats["summary.events_cancelled"] = str(getattr(summary, "events_cancelled", None))
+        for extra in ("total_windows", "total_cross_partition_events", "window_size_s"):     # ParallelSimulationSummary
+            if hasattr(summary, extra):
+                stats[f"summary.{extra}"] = repr(getattr(summary, extra))
         stats["summary.duration_s"] = repr(summary.duration_s)
         stats["summary.events_per_second"] = repr(summary.events_per_second)   # simulated-time rate, not wall time
         for nm, es in (getattr(summary, "entities", None) or {}).items():
